@@ -5,12 +5,22 @@ namespace Juno.C14
 open AMap
 
 theorem flushLocked_closed (s : Store) (d : Disk) (ft : Fault) (hc : s.closed = true) :
-    flushLocked s d ft = ⟨s, d, .closed, [(d, false)], []⟩ := by
+    flushLocked s d ft = ⟨s, d, .closed, [(d, false)], [], false⟩ := by
   unfold flushLocked; simp [hc]
 
 theorem closeStore_closed (s : Store) (d : Disk) (ft : Fault) (hc : s.closed = true) :
-    closeStore s d ft = ⟨s, d, .ok, [(d, false)], []⟩ := by
+    closeStore s d ft = ⟨s, d, .ok, [(d, false)], [], false⟩ := by
   unfold closeStore; simp [hc]
+
+/-- a blocked writer with something to write: `flushLocked` refuses and touches nothing -/
+theorem flushLocked_blocked (s : Store) (d : Disk) (ft : Fault) (hc : s.closed = false)
+    (hr : s.repairRequired = true) (hp : s.pending ≠ []) :
+    flushLocked s d ft = ⟨s, d, .errNotCommitted, [(d, false)], [], false⟩ := by
+  have : s.pending.isEmpty = false := by
+    cases h : s.pending with
+    | nil => exact absurd h hp
+    | cons a b => rfl
+  unfold flushLocked; simp [hc, hr, this]
 
 theorem closeOut_committed (c : Bool) (o : Outcome) :
     (if (c && decide (o = Outcome.ok)) = true then Outcome.errCommitted else o).committed = o.committed := by
@@ -22,14 +32,22 @@ theorem closeOut_committed (c : Bool) (o : Outcome) :
     rw [this]; rfl
   · simp only [h, Bool.false_eq_true, ↓reduceIte]
 
+theorem closeStore_limbo (s : Store) (d : Disk) (ft : Fault) (hc : s.closed = false) :
+    (closeStore s d ft).limbo = (flushLocked s d ft).limbo ∧
+    (closeStore s d ft).out.committed = (flushLocked s d ft).out.committed := by
+  unfold closeStore
+  simp only [hc, Bool.false_eq_true, ↓reduceIte, closeOut_committed, and_self]
+
 /-- `Close` from a state that satisfies the invariant -/
 theorem close_ok {s : Store} {d : Disk} {A C : List Rec} (i : SInv s d A C) (di : DInv d A)
     (hc : s.closed = false) (ft : Fault) :
     (∀ b ∈ (closeStore s d ft).bases, DInv b.1 (if b.2 = true then A ++ C else A)) ∧
-    DInv (closeStore s d ft).disk (if (closeStore s d ft).out.committed = true then A ++ C else A) ∧
+    DInv (closeStore s d ft).disk
+      (if ((closeStore s d ft).out.committed || (closeStore s d ft).limbo) = true then A ++ C else A) ∧
     (∀ F ∈ (closeStore s d ft).removed,
       Low (maxPrune (if (closeStore s d ft).out.committed = true then A ++ C else A)) (recsOfFile F)) ∧
-    (closeStore s d ft).st.closed = true := by
+    (closeStore s d ft).st.closed = true ∧
+    ((closeStore s d ft).limbo = true → (closeStore s d ft).out.committed = false) := by
   have f := flush_ok i di hc ft
   have hcl : (flushLocked s d ft).st.closed = false := by rw [f.closed]; exact hc
   have sf := f.sfin hcl
@@ -37,7 +55,7 @@ theorem close_ok {s : Store} {d : Disk} {A C : List Rec} (i : SInv s d A C) (di 
   have dtr : DInv (match (flushLocked s d ft).st.writer with
       | some n => (flushLocked s d ft).disk.setGarbage n true
       | none => (flushLocked s d ft).disk)
-      (if (flushLocked s d ft).out.committed = true then A ++ C else A) := by
+      (if ((flushLocked s d ft).out.committed || (flushLocked s d ft).limbo) = true then A ++ C else A) := by
     cases hw : (flushLocked s d ft).st.writer with
     | none => exact f.dfin
     | some n =>
@@ -48,9 +66,11 @@ theorem close_ok {s : Store} {d : Disk} {A C : List Rec} (i : SInv s d A C) (di 
       have hz := sf.wrz (by simp [hw])
       have hclean := sf.nogarb hr
       exact f.dfin.torn pre F hf (fun G hG => hclean G (by rw [hf]; exact List.mem_append_left _ hG)) hz
+  have hlim : (flushLocked s d ft).limbo = true → (flushLocked s d ft).out.committed = false := by
+    intro h; rw [(f.lim h).1]; rfl
   unfold closeStore
   simp only [hc, Bool.false_eq_true, ↓reduceIte, closeOut_committed]
-  refine ⟨?_, ?_, f.rem, trivial⟩
+  refine ⟨?_, ?_, f.rem, trivial, hlim⟩
   · intro b hb
     rcases List.mem_append.mp hb with h | h
     · exact f.bases b h
@@ -63,7 +83,8 @@ theorem close_ok {s : Store} {d : Disk} {A C : List Rec} (i : SInv s d A C) (di 
     · exact f.dfin
 
 theorem inv_init : Inv Sys.init := by
-  refine ⟨⟨?_, ?_, ?_, ?_, ?_, ?_, ?_, ?_, by intro f hf; simp [Sys.init] at hf, by intro f hf; simp [Sys.init] at hf⟩, ?_, ?_⟩
+  refine ⟨⟨?_, ?_, ?_, ?_, ?_, ?_, ?_, ?_, by intro f hf; simp [Sys.init] at hf, by intro f hf; simp [Sys.init] at hf⟩, ?_, ?_,
+    fun h => absurd rfl h⟩
   · simp [Sys.init, numsAsc]
   · intro f hf; simp [Sys.init] at hf
   · intro _; rfl
@@ -78,10 +99,14 @@ theorem inv_init : Inv Sys.init := by
 theorem Low.mono_append {A C : List Rec} {rs : List Rec} (l : Low (maxPrune A) rs) : Low (maxPrune (A ++ C)) rs :=
   l.mono (by rw [maxPrune_append]; omega)
 
+theorem Inv.d0 {sys : Sys} (i : Inv sys) (hl : sys.limbo = []) : DInv sys.disk sys.acked := by
+  have := i.d; rwa [hl, List.append_nil] at this
+
 /-- Every durable state an operation passes through satisfies the directory invariant, for the
-acknowledged history — extended by the calls in flight when the batch is completely on disk. -/
+acknowledged history — extended by the calls in flight when the batch is completely on disk, and
+otherwise by the batch in limbo (if any). -/
 theorem Inv.bases {sys : Sys} (i : Inv sys) (c : COp) :
-    ∀ b ∈ sys.bases c, DInv b.1 (if b.2 = true then sys.acked ++ sys.calls else sys.acked) := by
+    ∀ b ∈ sys.bases c, DInv b.1 (if b.2 = true then sys.acked ++ sys.calls else sys.acked ++ sys.limbo) := by
   intro b hb
   cases c with
   | idle =>
@@ -96,7 +121,13 @@ theorem Inv.bases {sys : Sys} (i : Inv sys) (c : COp) :
         simp only [List.mem_singleton] at hb
         subst hb; simpa using i.d
       · have hc' : sys.st.closed = false := by simpa using hc
-        exact (flush_ok (i.s ha hc') i.d hc' ft).bases b hb
+        by_cases hl : sys.limbo = []
+        · have := (flush_ok (i.s ha hc') (i.d0 hl) hc' ft).bases b hb
+          simpa [hl] using this
+        · obtain ⟨hr, hp⟩ := i.lim hl ha hc'
+          rw [flushLocked_blocked _ _ _ hc' hr hp] at hb
+          simp only [List.mem_singleton] at hb
+          subst hb; simpa using i.d
     · simp only [ha, Bool.false_eq_true, ↓reduceIte, List.mem_singleton] at hb
       subst hb; simpa using i.d
   | close ft =>
@@ -108,7 +139,21 @@ theorem Inv.bases {sys : Sys} (i : Inv sys) (c : COp) :
         simp only [List.mem_singleton] at hb
         subst hb; simpa using i.d
       · have hc' : sys.st.closed = false := by simpa using hc
-        exact (close_ok (i.s ha hc') i.d hc' ft).1 b hb
+        by_cases hl : sys.limbo = []
+        · have := (close_ok (i.s ha hc') (i.d0 hl) hc' ft).1 b hb
+          simpa [hl] using this
+        · obtain ⟨hr, hp⟩ := i.lim hl ha hc'
+          have hw : sys.st.writer = none := by
+            cases h : sys.st.writer with
+            | none => rfl
+            | some n =>
+              have := (i.s ha hc').wrr (by simp [h])
+              rw [hr] at this; cases this
+          unfold closeStore at hb
+          simp only [hc', Bool.false_eq_true, ↓reduceIte, flushLocked_blocked _ _ _ hc' hr hp, hw,
+            Outcome.committed, Bool.or_self, List.cons_append, List.nil_append, List.mem_cons,
+            List.not_mem_nil, or_false, or_self] at hb
+          subst hb; simpa using i.d
     · simp only [ha, Bool.false_eq_true, ↓reduceIte, List.mem_singleton] at hb
       subst hb; simpa using i.d
   | reopen =>
@@ -125,6 +170,38 @@ theorem Inv.bases {sys : Sys} (i : Inv sys) (c : COp) :
         rw [← ho.2] at di'
         simpa using di'
 
+theorem mergePrune_ne_nil (rs : List Rec) (h : Nat) (p : List Rec) (hm : mergePrune rs h = some p) : p ≠ [] := by
+  induction rs generalizing p with
+  | nil => cases hm
+  | cons r rs ih =>
+    cases r with
+    | prune h' => simp only [mergePrune, Option.some.injEq] at hm; subst hm; simp
+    | entry h' e =>
+      simp only [mergePrune, Option.map_eq_some_iff] at hm
+      obtain ⟨q, _, rfl⟩ := hm
+      simp
+
+theorem setEntry_blocked (s : Store) (h e : Nat) :
+    (s.setEntry h e).1.repairRequired = s.repairRequired ∧ (s.pending ≠ [] → (s.setEntry h e).1.pending ≠ []) := by
+  unfold Store.setEntry
+  split
+  · exact ⟨rfl, id⟩
+  · split
+    · exact ⟨rfl, id⟩
+    · exact ⟨rfl, fun _ => by simp⟩
+
+theorem deleteEntries_blocked (s : Store) (h : Nat) :
+    (s.deleteEntries h).1.repairRequired = s.repairRequired ∧ (s.pending ≠ [] → (s.deleteEntries h).1.pending ≠ []) := by
+  unfold Store.deleteEntries
+  split
+  · exact ⟨rfl, id⟩
+  · split
+    · exact ⟨rfl, id⟩
+    · split
+      · rename_i p hp
+        exact ⟨rfl, fun _ => mergePrune_ne_nil _ _ _ hp⟩
+      · exact ⟨rfl, fun _ => by simp⟩
+
 /-- Every operation — with or without an injected failure — every crash and every restart
 preserves the invariant. -/
 theorem Inv.step {sys : Sys} (i : Inv sys) (op : Op) : Inv (sys.step op).1 := by
@@ -137,13 +214,17 @@ theorem Inv.step {sys : Sys} (i : Inv sys) (op : Op) : Inv (sys.step op).1 := by
       · have : sys.st.setEntry h e = (sys.st, .closed) := by unfold Store.setEntry; simp [hc]
         rw [this]
         simp only [reduceCtorEq, ↓reduceIte]
-        exact ⟨i.d, fun _ hcl => (by simp [hc] at hcl), i.rem⟩
+        exact ⟨i.d, fun _ hcl => (by simp [hc] at hcl), i.rem, fun _ _ hcl => (by simp [hc] at hcl)⟩
       · have hc' : sys.st.closed = false := by simpa using hc
         obtain ⟨o, cl, si⟩ := setEntry_inv (i.s ha hc') hc' h e
-        refine ⟨i.d, ?_, i.rem⟩
-        intro _ _
-        simp only [o, ↓reduceIte]
-        exact si
+        obtain ⟨b1, b2⟩ := setEntry_blocked sys.st h e
+        refine ⟨i.d, ?_, i.rem, ?_⟩
+        · intro _ _
+          simp only [o, ↓reduceIte]
+          exact si
+        · intro hl _ _
+          obtain ⟨hr, hp⟩ := i.lim hl ha hc'
+          exact ⟨by rw [b1]; exact hr, b2 hp⟩
     · simp only [ha, Bool.not_false, ↓reduceIte]; exact i
   | del h =>
     simp only [Sys.step]
@@ -153,13 +234,17 @@ theorem Inv.step {sys : Sys} (i : Inv sys) (op : Op) : Inv (sys.step op).1 := by
       · have : sys.st.deleteEntries h = (sys.st, .closed) := by unfold Store.deleteEntries; simp [hc]
         rw [this]
         simp only [reduceCtorEq, ↓reduceIte]
-        exact ⟨i.d, fun _ hcl => (by simp [hc] at hcl), i.rem⟩
+        exact ⟨i.d, fun _ hcl => (by simp [hc] at hcl), i.rem, fun _ _ hcl => (by simp [hc] at hcl)⟩
       · have hc' : sys.st.closed = false := by simpa using hc
         obtain ⟨o, cl, si⟩ := deleteEntries_inv (i.s ha hc') hc' h
-        refine ⟨i.d, ?_, i.rem⟩
-        intro _ _
-        simp only [o, ↓reduceIte]
-        exact si
+        obtain ⟨b1, b2⟩ := deleteEntries_blocked sys.st h
+        refine ⟨i.d, ?_, i.rem, ?_⟩
+        · intro _ _
+          simp only [o, ↓reduceIte]
+          exact si
+        · intro hl _ _
+          obtain ⟨hr, hp⟩ := i.lim hl ha hc'
+          exact ⟨by rw [b1]; exact hr, b2 hp⟩
     · simp only [ha, Bool.not_false, ↓reduceIte]; exact i
   | flush ft =>
     simp only [Sys.step]
@@ -168,18 +253,42 @@ theorem Inv.step {sys : Sys} (i : Inv sys) (op : Op) : Inv (sys.step op).1 := by
       by_cases hc : sys.st.closed = true
       · rw [flushLocked_closed _ _ _ hc]
         simp only [Outcome.committed, Bool.false_eq_true, ↓reduceIte, List.append_nil]
-        exact ⟨i.d, fun _ hcl => (by simp [hc] at hcl), i.rem⟩
+        exact ⟨i.d, fun _ hcl => (by simp [hc] at hcl), i.rem, fun _ _ hcl => (by simp [hc] at hcl)⟩
       · have hc' : sys.st.closed = false := by simpa using hc
-        have f := flush_ok (i.s ha hc') i.d hc' ft
-        refine ⟨f.dfin, fun _ hcl => f.sfin hcl, ?_⟩
-        intro F hF
-        rcases List.mem_append.mp hF with h | h
-        · have := i.rem F h
-          show Low (maxPrune (if _ then _ else _)) _
-          split
-          · exact this.mono_append
-          · exact this
-        · exact f.rem F h
+        by_cases hl : sys.limbo = []
+        · have f := flush_ok (i.s ha hc') (i.d0 hl) hc' ft
+          refine ⟨?_, fun _ hcl => f.sfin hcl, ?_, ?_⟩
+          · show DInv _ ((if _ then _ else _) ++ (if _ then _ else _))
+            cases hlm : (flushLocked sys.st sys.disk ft).limbo with
+            | true =>
+              have hd := f.dfin
+              have ho := (f.lim hlm).1
+              rw [hlm, ho] at hd
+              rw [ho]
+              simpa [Outcome.committed] using hd
+            | false =>
+              have hd := f.dfin
+              rw [hlm] at hd
+              simpa [hl] using hd
+          · intro F hF
+            rcases List.mem_append.mp hF with h | h
+            · have := i.rem F h
+              show Low (maxPrune (if _ then _ else _)) _
+              split
+              · exact this.mono_append
+              · exact this
+            · exact f.rem F h
+          · intro hne _ _
+            have hlm : (flushLocked sys.st sys.disk ft).limbo = true := by
+              cases h : (flushLocked sys.st sys.disk ft).limbo with
+              | true => rfl
+              | false => exact absurd (by simp [h, hl]) hne
+            obtain ⟨_, h2, h3, h4⟩ := f.lim hlm
+            exact ⟨h2, by rw [h3]; exact h4⟩
+        · obtain ⟨hr, hp⟩ := i.lim hl ha hc'
+          rw [flushLocked_blocked _ _ _ hc' hr hp]
+          simp only [Outcome.committed, Bool.false_eq_true, ↓reduceIte, List.append_nil]
+          exact ⟨i.d, fun _ _ => i.s ha hc', i.rem, fun _ _ _ => ⟨hr, hp⟩⟩
     · simp only [ha, Bool.not_false, ↓reduceIte]; exact i
   | close ft =>
     simp only [Sys.step]
@@ -188,19 +297,45 @@ theorem Inv.step {sys : Sys} (i : Inv sys) (op : Op) : Inv (sys.step op).1 := by
       by_cases hc : sys.st.closed = true
       · rw [closeStore_closed _ _ _ hc]
         simp only [hc, Bool.not_true, Bool.and_false, Bool.false_eq_true, ↓reduceIte, List.append_nil]
-        exact ⟨i.d, fun _ hcl => (by simp [hc] at hcl), i.rem⟩
+        exact ⟨i.d, fun _ hcl => (by simp [hc] at hcl), i.rem, fun _ _ hcl => (by simp [hc] at hcl)⟩
       · have hc' : sys.st.closed = false := by simpa using hc
-        obtain ⟨_, df, rm, cl⟩ := close_ok (i.s ha hc') i.d hc' ft
-        simp only [hc', Bool.not_false, Bool.and_true]
-        refine ⟨df, fun _ hcl => (by rw [cl] at hcl; cases hcl), ?_⟩
-        intro F hF
-        rcases List.mem_append.mp hF with h | h
-        · have := i.rem F h
-          show Low (maxPrune (if _ then _ else _)) _
-          split
-          · exact this.mono_append
-          · exact this
-        · exact rm F h
+        by_cases hl : sys.limbo = []
+        · obtain ⟨_, df, rm, cl, lm⟩ := close_ok (i.s ha hc') (i.d0 hl) hc' ft
+          simp only [hc', Bool.not_false, Bool.and_true]
+          refine ⟨?_, fun _ hcl => (by rw [cl] at hcl; cases hcl), ?_, fun _ _ hcl => (by rw [cl] at hcl; cases hcl)⟩
+          · show DInv _ ((if _ then _ else _) ++ (if _ then _ else _))
+            cases hlm : (closeStore sys.st sys.disk ft).limbo with
+            | true =>
+              have ho := lm hlm
+              rw [hlm, ho] at df
+              rw [ho]
+              simpa using df
+            | false =>
+              rw [hlm] at df
+              simpa [hl] using df
+          · intro F hF
+            rcases List.mem_append.mp hF with h | h
+            · have := i.rem F h
+              show Low (maxPrune (if _ then _ else _)) _
+              split
+              · exact this.mono_append
+              · exact this
+            · exact rm F h
+        · obtain ⟨hr, hp⟩ := i.lim hl ha hc'
+          have hw : sys.st.writer = none := by
+            cases h : sys.st.writer with
+            | none => rfl
+            | some n =>
+              have := (i.s ha hc').wrr (by simp [h])
+              rw [hr] at this; cases this
+          have hcs : closeStore sys.st sys.disk ft =
+              ⟨{ sys.st with closed := true, writer := none }, sys.disk, .errNotCommitted,
+                [(sys.disk, false), (sys.disk, false), (sys.disk, false)], [], false⟩ := by
+            unfold closeStore
+            simp [hc', flushLocked_blocked _ _ _ hc' hr hp, hw, Outcome.committed]
+          rw [hcs]
+          simp only [Outcome.committed, Bool.false_and, Bool.false_eq_true, ↓reduceIte, List.append_nil]
+          exact ⟨i.d, fun _ hcl => (by cases hcl), i.rem, fun _ _ hcl => (by cases hcl)⟩
     · simp only [ha, Bool.not_false, ↓reduceIte]; exact i
   | reopen =>
     simp only [Sys.step]
@@ -208,7 +343,9 @@ theorem Inv.step {sys : Sys} (i : Inv sys) (op : Op) : Inv (sys.step op).1 := by
     · exact i
     · obtain ⟨s', d', ho, di', si', cl'⟩ := open_inv i.d
       rw [ho]
-      exact ⟨di', fun _ _ => si', i.rem⟩
+      refine ⟨by simpa using di', fun _ _ => si', ?_, fun h => absurd rfl h⟩
+      intro F hF
+      exact (i.rem F hF).mono_append
   | crash c k mask alt =>
     simp only [Sys.step]
     cases hb : (sys.bases c)[k]? with
@@ -218,13 +355,13 @@ theorem Inv.step {sys : Sys} (i : Inv sys) (op : Op) : Inv (sys.step op).1 := by
       have hm : (bd, infl) ∈ sys.bases c := List.mem_of_getElem? hb
       have db := i.bases c (bd, infl) hm
       simp only at db ⊢
-      refine ⟨db.resurrect mask alt, fun h => (by cases h), ?_⟩
+      refine ⟨by simpa using db.resurrect mask alt, fun h => (by cases h), ?_, fun h => absurd rfl h⟩
       intro F hF
       have := i.rem F hF
       show Low (maxPrune (if _ then _ else _)) _
       split
       · exact this.mono_append
-      · exact this
+      · exact this.mono_append
 
 theorem inv_run (ops : List Op) : Inv (Sys.init.run ops) := by
   have key : ∀ (ops : List Op) (sys : Sys), Inv sys → Inv (sys.run ops) := by
@@ -303,6 +440,9 @@ theorem flush_not_committed (s : Store) (d : Disk) (ft : Fault) (hc : s.closed =
   by_cases h5 : ft = Fault.appendNoRepair
   · simp [h5, e1, e2, e3, hc]
   simp only [h5, ↓reduceIte] at ho ⊢
+  by_cases h5' : ft = Fault.appendFullNoRepair
+  · simp [h5', e1, e2, e3, hc]
+  simp only [h5', ↓reduceIte] at ho ⊢
   by_cases h6 : countPrunes s.pending = 0
   · simp [h6] at ho
   simp only [h6, ↓reduceIte] at ho ⊢
@@ -342,6 +482,9 @@ theorem flushTags_length (s : Store) (d : Disk) (ft : Fault) :
   by_cases h5 : ft = Fault.appendNoRepair
   · simp only [h5, ↓reduceIte]; rfl
   simp only [h5, ↓reduceIte]
+  by_cases h5' : ft = Fault.appendFullNoRepair
+  · simp only [h5', ↓reduceIte]; rfl
+  simp only [h5', ↓reduceIte]
   by_cases h6 : countPrunes s.pending = 0
   · simp only [h6, ↓reduceIte]; rfl
   simp only [h6, ↓reduceIte]
@@ -388,14 +531,16 @@ theorem step_acked_prefix (sys : Sys) (op : Op) : ∃ t, (sys.step op).1.acked =
     simp only [Sys.step]
     split
     · exact ⟨[], by simp⟩
-    · split <;> exact ⟨[], by simp⟩
+    · split
+      · exact ⟨_, rfl⟩
+      · exact ⟨[], by simp⟩
   | crash c k m =>
     simp only [Sys.step]
     split
     · exact ⟨[], by simp⟩
     · simp only; split
       · exact ⟨_, rfl⟩
-      · exact ⟨[], by simp⟩
+      · exact ⟨_, rfl⟩
 
 theorem run_acked_prefix (sys : Sys) (ops : List Op) : ∃ t, (sys.run ops).acked = sys.acked ++ t := by
   induction ops generalizing sys with
